@@ -264,7 +264,10 @@ func C14(ctx *Ctx) {
 					if e.tag == "T" && (ref.Mode == "rel8" || ref.Mode == "rel16") && stepAddr != nil {
 						want := absint.Restrict(stepAddr.Lin, g).Key()
 						if e.val.Lin.Key() != want {
-							tgtBad = fmt.Sprintf("cell %s (path %s): rendered destination %s, Step branches to %s", c, sig, trunc(e.val.Lin.Key()), trunc(want))
+							// not the same term: the same function on this path?
+							if same, why := sameTermUnder(e.val, r.Conds, stepAddr, sr.Conds, g); !same {
+								tgtBad = fmt.Sprintf("cell %s (path %s): rendered destination %s, Step branches to %s (%s)", c, sig, trunc(e.val.Lin.Key()), trunc(want), why)
+							}
 						}
 					}
 				}
@@ -343,7 +346,7 @@ func checkFlagLetters(ctx *Ctx) {
 		}
 	}
 	R.Count("flag-letter-sites", n)
-	R.Floor("flag-letter-sites", 16)
+	R.Floor("flag-letter-sites", 8)
 }
 
 // checkLoggerRegion: structural rules on RunUntil's use of Logger.
